@@ -4,6 +4,7 @@ Stub executor/assessor objects (with `name`, `express`) are substituted on the r
 8x8x6 verdict table (incl. exceptions) is swept completely in every run, for several prompts;
 cache histories are replayed against a per-prompt model of the original reply.
 """
+import contextlib
 import hashlib
 import sys
 
@@ -19,11 +20,22 @@ LEVEL = "exploration"
 TECHNIQUE = "runtime monitoring: stub agents drive the complete verdict table through the real loop; results checked against the statement's necessary conditions, token binding and a per-prompt cache model under a virtual clock"
 RULE = ("cases: complete sweep of 6 gate logics x 8 executor verdicts x 8 assessor verdicts (EXECUTE, PERMIT, BLOCK, FAILURE, DEFER, UNKNOWN, "
         "garbage, exception) x prompts from a hostile string family, then random repeat/caching histories (<= 12 steps, verdicts changed between "
-        "original and repeat, TTL crossed on a virtual clock, clear_cache); non-trivial = table cell with at least one permitting agent or a history "
-        "with a cache hit; distinct = (logic, verdict pair, prompt class) / (history shape)")
+        "original and repeat, TTL crossed on a virtual clock, clear_cache), thread schedules on one shared loop (configuration drawn per case), and "
+        "sessions: 1-3 differently configured loops (every constructor option drawn from degenerate/default/extreme values or left out) used alternately "
+        "with the same prompts, clock steps from 1 ms to 400 days, user callbacks that record / raise / re-enter, constant verdict objects shared between "
+        "requests, verdict objects mutated after the call, assessor replaced mid-session, built-in agents under a spy, each session replayed verbose and with "
+        "read-only APIs interleaved; one or more histories of > 20 000 requests / > 10 000 distinct prompts on two long-lived loops; "
+        "non-trivial = table cell with at least one permitting agent or a history/session with a judged reply; distinct = (logic, verdict pair, prompt class) / "
+        "(history or session shape)")
 ASSUMPTIONS = ["executor permits = EXECUTE or PERMIT; assessor permits = PERMIT only (as the statement's token clause implies)",
                "MAJORITY over two agents can only pass when both permit",
-               "prompts are encodable text (lone surrogates are recorded, not judged)"]
+               "prompts are encodable text (lone surrogates are recorded, not judged)",
+               "a reply is judged by what the stub agents were observed to answer during that very call: if an agent raised in the call the reply must be blocked "
+               "even when it is marked cached; a reply that is not marked cached and for which no agent was consulted has no verdicts behind it and must be blocked",
+               "an exception raised by a user on_block/on_permit callback propagates out of run() on the unchanged tree (recorded, not judged); the reply then is the "
+               "result handed to the callback, and every later call must still return (no lock left held) and obey the table",
+               "round-3 brief obligations: the same session run verbose, or with reporting APIs interleaved, yields the same verdicts (verdict-differs:*), and nothing raises",
+               "a cache hit after the configured TTL is recorded, not judged (the statement only fixes the verdict of cached replies)"]
 
 VERDICTS = ["EXECUTE", "PERMIT", "BLOCK", "FAILURE", "DEFER", "UNKNOWN", "garbage", "raise"]
 LOGICS = ["AND", "OR", "MAJORITY", "UNANIMOUS", "EXECUTOR_PRIORITY", "ASSESSOR_PRIORITY"]
@@ -79,16 +91,29 @@ def extra_table():
     return _EXTRA
 
 
+def session_counts(tier):
+    return (1200, 1) if tier == "quick" else (20000, 6)
+
+
 def plan(tier):
     nprompts = 6 if tier == "quick" else len(PROMPTS)
     hist = 6000 if tier == "quick" else 150000
     nthr = 60 if tier == "quick" else 1200
-    return {"cases": len(TABLE) * nprompts + len(extra_table()) + len(LOGICS) * len(exception_classes()) * 6 + nthr + hist, "shards": 8 if tier == "quick" else 14,
+    nsess, nlong = session_counts(tier)
+    return {"cases": len(TABLE) * nprompts + len(extra_table()) + len(LOGICS) * len(exception_classes()) * 6 + nthr + nlong + nsess + hist, "shards": 8 if tier == "quick" else 14,
             "min_nontrivial": 300, "timeout": 600 if tier == "quick" else 2400, "exhaustive": False,
             "require": {"table_cells": len(TABLE) * nprompts, "not_blocked_results": 100, "tokens_checked": 100,
                         "cache_hits_checked": 1000, "agent_exceptions": 100, "ttl_expiries": 50,
                         "unknown_verdict_cells": 500, "verdicts_with_foreign_provenance": 300, "exception_sweep_cells": 500, "thread_schedules": 3000, "thread_results_judged": 6000,
-                        "long_prompt_family_runs": 200}}
+                        "long_prompt_family_runs": 200,
+                        "sessions": nsess, "session_runs": 8000, "session_cache_hits": 2000, "session_agent_exceptions": 1500,
+                        "agent_exception_on_reevaluation_after_expiry": 200, "same_verdict_object_for_a_different_request": 200,
+                        "multi_instance_sessions": 500, "callback_raises": 800, "reentrant_calls": 500, "reads_interleaved": 3000, "verbose_runs": 2000,
+                        "differential_sessions_compared": 1200, "clock_jumps_over_24h": 200, "clock_steps_sub_second": 400, "replies_without_consultation": 100,
+                        "session_loops_with_builtin_agents": 100, "builtin_agent_verdicts": 800, "verdict_objects_mutated_after_call": 3000,
+                        "assessor_replaced": 300, "maintenance_calls": 600, "session_loops_with_degenerate_or_extreme_option": 900,
+                        "session_loops_mostly_default_constructed": 100, "thread_cases_with_circuit_breaker": 2, "thread_cases_with_constant_verdict_objects": 5,
+                        "long_sessions": nlong, "long_session_requests": 4000, "long_session_distinct_prompts": 2000}}
 
 
 class Boom(Exception):
@@ -112,6 +137,7 @@ class Stub:
         self.name = name
         self.verdict = "PERMIT"
         self.calls = 0
+        self.raised = 0
         self.exc_index = 0
         self.provenance = None
 
@@ -119,6 +145,7 @@ class Stub:
         from operon_ai.core.types import ActionProtein
         self.calls += 1
         if self.verdict == "raise":
+            self.raised += 1
             classes = exception_classes()
             cls = classes[self.exc_index % len(classes)]
             if cls is UnicodeDecodeError:
@@ -171,7 +198,7 @@ def judge(ctx, logic, e, a, prompt, r, assessor_name, where, witness):
     if not r.blocked:
         ctx.count("not_blocked_results")
         if not may_pass(logic, e, a):
-            kind = "exception" if "raise" in (e, a) else "unknown-verdict" if {e, a} & {"DEFER", "UNKNOWN", "garbage"} else "table"
+            kind = "exception" if "raise" in (e, a) else "no-verdicts" if e is None and a is None else "unknown-verdict" if {e, a} & {"DEFER", "UNKNOWN", "garbage"} else "table"
             ctx.violation("passes-without-required-approvals:%s:%s" % (logic, kind),
                           "%s gate: executor=%s assessor=%s came back not blocked (%s)" % (logic, e, a, where), witness)
     if r.approval_token is not None:
@@ -278,14 +305,21 @@ def run_case(ctx, n):
     nthr = 60 if ctx.tier == "quick" else 1200
     if n3 < nthr:
         return thread_case(ctx, n)
+    n3 -= nthr
+    nsess, nlong = session_counts(ctx.tier)
+    if n3 < nlong:
+        return long_case(ctx, n)
+    n3 -= nlong
+    if n3 < nsess:
+        return session_case(ctx, n)
     history_case(ctx, n)
 
 
 class PromptStub:
     """verdict encoded in the prompt itself: 'E=<verdict>;A=<verdict>;#id' — so that under threads every request has its own verdict pair"""
 
-    def __init__(self, name, role):
-        self.name, self.role = name, role
+    def __init__(self, name, role, share=None):
+        self.name, self.role, self.share = name, role, share      # share: dict verdict -> the ONE verdict object handed out for it (or None)
 
     def express(self, signal):
         from operon_ai.core.types import ActionProtein
@@ -293,6 +327,11 @@ class PromptStub:
         v = fields[self.role]
         if v == "raise":
             raise Boom("agent crashed")
+        if self.share is not None:
+            p = self.share.get(v)
+            if p is None:
+                p = self.share[v] = ActionProtein(v, "payload", 0.8)
+            return p
         return ActionProtein(v, "payload", 0.8)
 
 
@@ -305,6 +344,10 @@ def thread_case(ctx, n):
     logic = rng.choice(LOGICS)
     cache = rng.random() < 0.5
     nthreads = rng.choice([2, 2, 3])
+    # configuration drawn per case: circuit breaker on (tiny thresholds), degenerate TTLs, verbose mode, constant verdict objects
+    kw = {"enable_circuit_breaker": rng.random() < 0.25, "failure_threshold": rng.choice([0, 1, 2, 5]), "recovery_timeout_seconds": rng.choice([0, 60.0]),
+          "cache_ttl_seconds": rng.choice([0, 0.5, 300.0, 300.0]), "silent": rng.random() < 0.7}
+    share_mode = rng.choice([None, None, "stub", "both"])
     reqs = []
     for t in range(nthreads):
         ops = []
@@ -314,18 +357,24 @@ def thread_case(ctx, n):
                 e, a = rng.choice(["EXECUTE", "BLOCK", "PERMIT", "FAILURE"]), rng.choice(["PERMIT", "BLOCK"])
             ops.append(("E=%s;A=%s;#%d.%d" % (e, a, t, k), e, a))
         reqs.append(ops)
-    desc = {"logic": logic, "cache": cache, "threads": [[o[0] for o in ops] for ops in reqs]}
+    desc = {"logic": logic, "cache": cache, "config": kw, "verdict_objects": share_mode, "threads": [[o[0] for o in ops] for ops in reqs]}
+    if kw["enable_circuit_breaker"]:
+        ctx.count("thread_cases_with_circuit_breaker")
+    if share_mode:
+        ctx.count("thread_cases_with_constant_verdict_objects")
 
     def one(policy, label):
-        loop = CoherentFeedForwardLoop(ATP_Store(10 ** 6, silent=True), gate_logic=GateLogic[logic], enable_circuit_breaker=False,
-                                       enable_cache=cache, silent=True)
-        loop.executor, loop.assessor = PromptStub("Gene_Z (Exec)", "E"), PromptStub("Gene_Y (Risk)", "A")
+        loop = CoherentFeedForwardLoop(ATP_Store(10 ** 6, silent=True), gate_logic=GateLogic[logic], enable_cache=cache, **kw)
+        both = {} if share_mode == "both" else None
+        loop.executor = PromptStub("Gene_Z (Exec)", "E", both if share_mode == "both" else {} if share_mode else None)
+        loop.assessor = PromptStub("Gene_Y (Risk)", "A", both if share_mode == "both" else {} if share_mode else None)
         wrap_all_locks(loop, sched.SchedLock, "loop")
 
         def mk(ops):
             return lambda: [loop.run(p) for (p, _, _) in ops]
         sc = sched.Scheduler(policy, watchdog_s=30.0)
-        sc.run([mk(ops) for ops in reqs])
+        with contextlib.redirect_stdout(_Sink()):
+            sc.run([mk(ops) for ops in reqs])
         ctx.count("thread_schedules")
         w = dict(desc, policy=label, choices=sc.choices[:300])
         if sc.stuck:
@@ -410,6 +459,7 @@ def history_case(ctx, n):
                 e, a = rng.choice(["EXECUTE", "PERMIT"]), "PERMIT"
             loop.executor.verdict, loop.assessor.verdict = e, a
             calls0 = loop.executor.calls + loop.assessor.calls
+            raised0 = loop.executor.raised + loop.assessor.raised
             steps.append(("run", prompt[:30], e, a))
             w = {"logic": logic, "ttl": ttl, "steps": list(steps)}
             try:
@@ -420,6 +470,18 @@ def history_case(ctx, n):
             except BaseException as ex:
                 ctx.violation("run-raises", "run() raised %r" % (ex,), w)
                 return
+            if loop.executor.raised + loop.assessor.raised != raised0:
+                # an agent raised while THIS request was evaluated: the reply is blocked, whether or not it claims to come from the cache
+                ctx.count("replies_after_agent_exception")
+                o = originals.get(prompt)
+                if o is not None:
+                    ctx.count("agent_exception_on_reevaluation_of_known_prompt")
+                    if clock.time() - o[3] >= ttl:
+                        ctx.count("ttl_expiries")
+                        ctx.count("agent_exception_on_reevaluation_after_expiry")
+                judge(ctx, logic, e, a, prompt, r, name, "agent raised during this call", w)
+                ctx.count("agent_exceptions")
+                continue
             if r.cached:
                 hits += 1
                 ctx.count("cache_hits_checked")
@@ -453,6 +515,540 @@ def history_case(ctx, n):
         ctx.nontrivial((logic, tuple(s[0] if s[0] != "run" else (s[2], s[3]) for s in steps)))
     if n % 3000 == 0:
         ctx.sample({"logic": logic, "ttl": ttl, "steps": steps})
+
+
+# ---------------------------------------------------------------------------------------------------------------------
+# Sessions (round 3): several differently configured loops alive at once and used alternately with the same prompts, degenerate /
+# extreme constructor values (also left at their defaults), sub-second .. multi-day clock jumps, verbose mode, user callbacks that
+# record / raise / re-enter, read-only APIs interleaved, verdict objects shared between requests (identity), equal-but-distinct
+# prompt objects, verdict objects mutated after the call, assessor replaced mid-session, maintenance APIs, very long histories.
+# Every reply is judged by what the stub agents were OBSERVED to answer during that very call (not by what the reply claims).
+
+class CallbackBoom(Exception):
+    def __init__(self, cid, result):
+        super().__init__("user callback failed")
+        self.cid, self.result = cid, result
+
+
+class _Sink:
+    def write(self, s):
+        return len(s)
+
+    def flush(self):
+        pass
+
+
+CONFIDENCES = [0.7, 0.0, 1.0, -0.0, 0.1 + 0.2, 1.0000000000000002, 0.9999999999999999, -1.0, 2 ** 53 + 1, float("nan"), float("inf"),
+               float("-inf"), 5e-324, 1, 0, True]
+PAYLOADS = ["ok", "", None, 0, b"bytes", {"k": [1, 2]}, "x" * 5000, "Avoid this", 3.5, ("t",)]
+SESSION_TTLS = [0, 1e-6, 0.05, 0.5, 1, 1.5, 60.0, 300, 86400.0, 2 * 86400 + 5.0, 1e9, -1]
+ASSESSOR_NAMES = ["Gene_Y (Risk)", "gene_y (risk)", "", "Gene_Z (Exec)", "risk-2", "Ünï ‮ assessor", "GENE_Y (RISK)", " Gene_Y (Risk)"]
+
+
+class RecStub:
+    """scripted agent that records, per call, who asked (the harness call id) and what it answered. `share`: None = a fresh verdict
+    object per call; a dict = verdict objects are constants (one object per verdict, handed out for every request; the dict may be shared
+    by several stubs / loops)."""
+
+    def __init__(self, name, share, play):
+        self.name, self.share, self.play = name, share, play
+        self.verdict, self.exc_index, self.conf, self.payload = "PERMIT", 0, 0.7, "ok"
+        self.events = []
+        self.last = None
+        self.handed = {}     # id(verdict object) -> prompt it was last handed out for
+
+    def express(self, signal):
+        from operon_ai.core.types import ActionProtein
+        owner = self.play.stack[-1] if self.play.stack else None
+        if self.verdict == "raise":
+            self.events.append((owner, "raise"))
+            classes = exception_classes()
+            cls = classes[self.exc_index % len(classes)]
+            if cls is UnicodeDecodeError:
+                raise UnicodeDecodeError("utf-8", b"x", 0, 1, "agent %s crashed" % self.name)
+            raise cls("agent %s crashed" % self.name) if self.exc_index % 3 else cls()
+        if self.share is not None:
+            p = self.share.get(self.verdict)
+            if p is None:
+                p = self.share[self.verdict] = ActionProtein(self.verdict, self.payload, self.conf)
+            prev = self.handed.get(id(p))
+            if prev is not None and prev != signal.content:
+                self.play.ctx.count("same_verdict_object_for_a_different_request")
+            self.handed[id(p)] = signal.content
+        else:
+            p = ActionProtein(self.verdict, self.payload, self.conf)
+        self.events.append((owner, p.action_type))
+        self.last = p
+        return p
+
+
+class Spy:
+    """wraps a loop's BUILT-IN agent: delegates to it and records what it answered (or that it raised)"""
+
+    def __init__(self, real, play):
+        self.real, self.play = real, play
+        self.name = real.name
+        self.verdict, self.exc_index, self.conf, self.payload, self.share = None, 0, 0.0, None, None
+        self.events, self.last = [], None
+
+    def express(self, signal):
+        owner = self.play.stack[-1] if self.play.stack else None
+        try:
+            p = self.real.express(signal)
+        except BaseException:
+            self.events.append((owner, "raise"))
+            raise
+        self.events.append((owner, p.action_type))
+        self.last = p
+        self.play.ctx.count("builtin_agent_verdicts")
+        return p
+
+
+def session_prompt(rng):
+    while True:
+        p = rand_prompt(rng)
+        try:
+            p.encode()
+            return p
+        except UnicodeEncodeError:
+            continue
+
+
+def pick_verdicts(rng):
+    r = rng.random()
+    if r < 0.35:
+        return rng.choice(["EXECUTE", "PERMIT"]), "PERMIT"
+    if r < 0.50:
+        other = rng.choice(["EXECUTE", "PERMIT", "PERMIT", "BLOCK"])
+        return ("raise", other) if rng.random() < 0.5 else (other, "raise")
+    if r < 0.58:
+        w = rng.choice(EXTRA_STATIC)
+        return rng.choice([(w, "PERMIT"), ("EXECUTE", w), (w, w)])
+    return rng.choice(VERDICTS), rng.choice(VERDICTS)
+
+
+def cb_kind(rng):
+    return rng.choice([None, None, None, "record", "raise1", "raise2", "reenter", "reenter-raise"])
+
+
+def gen_loop_cfg(rng, i):
+    kw = {}
+    if rng.random() < 0.75:
+        kw["gate_logic"] = rng.choice(LOGICS)
+    if rng.random() < 0.8:
+        kw["enable_circuit_breaker"] = rng.random() < 0.3
+    if rng.random() < 0.5:
+        kw["failure_threshold"] = rng.choice([0, 1, 2, 2.5, 5, 10 ** 9])
+    if rng.random() < 0.5:
+        kw["recovery_timeout_seconds"] = rng.choice([0, 0.001, 0.5, 60.0, 3 * 86400.0, 1e9])
+    if rng.random() < 0.5:
+        kw["enable_cache"] = rng.random() < 0.8
+    if rng.random() < 0.7:
+        kw["cache_ttl_seconds"] = rng.choice(SESSION_TTLS)
+    if rng.random() < 0.4:
+        kw["timeout_seconds"] = rng.choice([0, None, 0.001, 30.0, 1e9])
+    return {"kw": kw, "builtin_agents": rng.random() < 0.12, "budget": rng.choice(["own", "own", "shared", "shared", None, 0, 15, 25]),
+            "assessor": rng.choice(ASSESSOR_NAMES + ["risk-%d" % i]), "executor": rng.choice(["Gene_Z (Exec)", "exec-%d" % i, "Gene_Y (Risk)"]),
+            "same_stub": rng.random() < 0.08, "cb": {"on_block": cb_kind(rng), "on_permit": cb_kind(rng)}, "cb_via_ctor": rng.random() < 0.5}
+
+
+def gen_run_step(rng, nloops, npool):
+    e, a = pick_verdicts(rng)
+    return ("run", rng.randrange(nloops), rng.randrange(npool), e, a,
+            {"ei": rng.randrange(1000), "ai": rng.randrange(1000), "conf": rng.choice(CONFIDENCES), "payload": rng.choice(PAYLOADS),
+             "distinct": rng.random() < 0.5, "mutate": rng.choice([None, None, None, None, "exec", "assess", "both"])})
+
+
+def gen_session(rng):
+    nloops = rng.choice([1, 2, 2, 2, 3])
+    pool = [session_prompt(rng) for _ in range(rng.randint(1, 4))]
+    loops = [gen_loop_cfg(rng, i) for i in range(nloops)]
+    steps = []
+    for _ in range(rng.randint(4, 20)):
+        r = rng.random()
+        li = rng.randrange(nloops)
+        if r < 0.13:
+            ttl = loops[li]["kw"].get("cache_ttl_seconds", 300.0)
+            steps.append(("advance", rng.choice([0.001, 0.049, 0.5, max(0.0, ttl - 0.001), max(0.0, ttl), max(0.0, ttl) + 0.001, 86400.0 + max(0.0, min(ttl, 3600.0)) / 2,
+                                                 86400.0 * rng.choice([1, 2, 30, 400])])))
+        elif r < 0.17:
+            steps.append(("clear_cache", li))
+        elif r < 0.20:
+            steps.append(("reset_circuit_breaker", li))
+        elif r < 0.24:
+            steps.append(("swap_assessor", li, rng.choice(ASSESSOR_NAMES + ["replacement"])))
+        elif r < 0.27:
+            steps.append(("set_cb", li, rng.choice(["on_block", "on_permit"]), cb_kind(rng)))
+        else:
+            steps.append(gen_run_step(rng, nloops, len(pool)))
+    nested = [(rng.randrange(nloops), rng.randrange(len(pool))) + pick_verdicts(rng) for _ in range(5)]
+    return {"share": rng.choice([None, None, "stub", "session"]), "pool": pool, "loops": loops, "steps": steps, "nested": nested}
+
+
+class _LS:
+    pass
+
+
+class Play:
+    """one execution of a session script. variant: 'base' (all loops silent), 'verbose' (silent left at its default False, stdout to a sink),
+    'reads' (base + read-only APIs interleaved at positions drawn from the variant's own rng)."""
+
+    def __init__(self, ctx, script, variant, vrng, clock, long=False):
+        self.ctx, self.script, self.variant, self.vrng, self.clock, self.long = ctx, script, variant, vrng, clock, long
+        self.stack, self.cid, self.calls = [], 0, {}
+        self.outcomes, self.dead, self.nested_i = [], False, 0
+        self.session_share = {} if script["share"] == "session" else None
+        self.loops = []
+        self.si = -1
+
+    # -- construction ----------------------------------------------------------------------------------------------
+    def new_stub(self, name):
+        sh = self.script["share"]
+        return RecStub(name, self.session_share if sh == "session" else ({} if sh == "stub" else None), self)
+
+    def build(self):
+        from operon_ai.topology.loops import CoherentFeedForwardLoop, GateLogic
+        from operon_ai.state.metabolism import ATP_Store
+        from rv.locks import DetectingLock
+        shared_budget = ATP_Store(10 ** 9, silent=True)
+        for i, cfg in enumerate(self.script["loops"]):
+            kw = dict(cfg["kw"])
+            ls = _LS()
+            ls.logic = kw.get("gate_logic", "AND")
+            if "gate_logic" in kw:
+                kw["gate_logic"] = GateLogic[kw["gate_logic"]]
+            if self.variant == "verbose":
+                if i % 2:
+                    kw["silent"] = False          # else: left at the default
+            else:
+                kw["silent"] = True
+            ls.cb = dict(cfg["cb"])
+            ls.cb_calls = {"on_block": 0, "on_permit": 0}
+            if cfg["cb_via_ctor"]:
+                kw["on_block"] = self.make_cb(i, "on_block")
+                kw["on_permit"] = self.make_cb(i, "on_permit")
+            b = cfg["budget"]
+            budget = shared_budget if b == "shared" else ATP_Store(10 ** 9, silent=True) if b == "own" else None if b is None else ATP_Store(b, silent=True)
+            if budget is None and cfg["builtin_agents"]:
+                budget = shared_budget
+            ls.loop = CoherentFeedForwardLoop(budget, **kw)
+            if not cfg["cb_via_ctor"]:
+                ls.loop.on_block = self.make_cb(i, "on_block")
+                ls.loop.on_permit = self.make_cb(i, "on_permit")
+            if cfg["builtin_agents"]:
+                ls.executor, ls.assessor = Spy(ls.loop.executor, self), Spy(ls.loop.assessor, self)
+                self.ctx.count("session_loops_with_builtin_agents")
+            else:
+                ls.assessor = self.new_stub(cfg["assessor"])
+                ls.executor = ls.assessor if cfg["same_stub"] else self.new_stub(cfg["executor"])
+            ls.loop.executor, ls.loop.assessor = ls.executor, ls.assessor
+            wrap_all_locks(ls.loop, DetectingLock, "loop%d" % i)
+            ls.originals = {}
+            ls.ttl = cfg["kw"].get("cache_ttl_seconds", 300.0)
+            self.loops.append(ls)
+            self.ctx.count("session_loops")
+            if len(cfg["kw"]) <= 2:
+                self.ctx.count("session_loops_mostly_default_constructed")
+            if ls.ttl in (0, 1e-6, -1, 1e9) or kw.get("failure_threshold") in (0, 1, 10 ** 9) or kw.get("recovery_timeout_seconds") in (0, 0.001, 1e9) or kw.get("timeout_seconds", 30.0) in (0, None, 1e9):
+                self.ctx.count("session_loops_with_degenerate_or_extreme_option")
+        if len(self.loops) > 1:
+            self.ctx.count("multi_instance_sessions")
+
+    def make_cb(self, li, which):
+        def cb(result):
+            ls = self.loops[li]
+            kind = ls.cb.get(which)
+            if kind is None:
+                return
+            ls.cb_calls[which] += 1
+            self.ctx.count("callback_invocations")
+            cid = self.stack[-1] if self.stack else None
+            cc = self.calls.get(cid)
+            if cc is not None and cc["li"] == li:
+                cc["cb_result"] = result
+                self.update_model(cc, result)       # the reply exists from here on (a re-entrant call may already hit the cache)
+            if kind.startswith("reenter") and len(self.stack) < 2:
+                nli, npi, ne, na = self.script["nested"][self.nested_i % len(self.script["nested"])]
+                self.nested_i += 1
+                self.ctx.count("reentrant_calls")
+                self.do_run(nli, self.script["pool"][npi], ne, na, {"ei": 1, "ai": 2, "conf": 0.5, "payload": "nested", "distinct": False, "mutate": None})
+            if kind == "raise1" or kind == "reenter-raise" or (kind == "raise2" and ls.cb_calls[which] % 2 == 0):
+                self.ctx.count("callback_raises")
+                raise CallbackBoom(cid, result)
+        return cb
+
+    # -- observation -----------------------------------------------------------------------------------------------
+    def observed(self, cc):
+        """what the agents answered while call `cc` was the innermost harness call: (executor verdict | None, assessor verdict | None)"""
+        ls = self.loops[cc["li"]]
+        ex, asr = cc["ex"], cc["asr"]
+        if ex is asr:
+            evs = [v for (o, v) in ex.events[cc["i0e"]:] if o == cc["cid"]]
+            return (evs[0] if evs else None), (evs[1] if len(evs) > 1 else None)
+        ee = [v for (o, v) in ex.events[cc["i0e"]:] if o == cc["cid"]]
+        aa = [v for (o, v) in asr.events[cc["i0a"]:] if o == cc["cid"]]
+        return (ee[0] if ee else None), (aa[0] if aa else None)
+
+    def update_model(self, cc, r):
+        e, a = self.observed(cc)
+        if (e is not None or a is not None) and "raise" not in (e, a):
+            self.loops[cc["li"]].originals[cc["prompt"]] = (verdict_tuple(r), e, a, self.clock.time(), cc["asr"].name)
+
+    def witness(self, cc=None):
+        sc = self.script
+        steps = sc["steps"][max(0, self.si - 8):self.si + 1] if self.long else sc["steps"][:self.si + 1]
+        w = {"variant": self.variant, "share": sc["share"], "loops": sc["loops"], "pool": [p[:60] for p in sc["pool"][:8]],
+             "step_index": self.si, "steps": steps, "nested": sc["nested"]}
+        if cc is not None:
+            w["call"] = {"loop": cc["li"], "prompt": cc["prompt"][:60], "depth": cc["depth"], "scripted": (cc["e"], cc["a"])}
+        return w
+
+    # -- one judged run() ------------------------------------------------------------------------------------------
+    def do_run(self, li, prompt, e, a, opt):
+        from rv.locks import WouldHang
+        ctx = self.ctx
+        ls = self.loops[li]
+        ex, asr = ls.executor, ls.assessor
+        if ex is asr:
+            e = a
+        ex.verdict, ex.exc_index = e, opt["ei"]
+        asr.verdict, asr.exc_index = a, opt["ai"]
+        ex.conf = asr.conf = opt["conf"]
+        ex.payload = asr.payload = opt["payload"]
+        if opt["distinct"]:
+            prompt = "".join(list(prompt))      # equal, but not the object used before
+        self.cid += 1
+        cc = {"cid": self.cid, "li": li, "prompt": prompt, "e": e, "a": a, "ex": ex, "asr": asr, "i0e": len(ex.events), "i0a": len(asr.events),
+              "depth": len(self.stack), "cb_result": None}
+        self.calls[cc["cid"]] = cc
+        self.stack.append(cc["cid"])
+        ctx.count("session_runs")
+        if self.variant == "verbose":
+            ctx.count("verbose_runs")
+        r, how = None, "ok"
+        try:
+            r = ls.loop.run(prompt)
+        except CallbackBoom as cbx:
+            if cbx.cid == cc["cid"]:
+                r, how = cbx.result, "callback-raised"     # the tree lets a user callback's exception propagate; the reply is what the callback was given
+            else:
+                ctx.violation("run-raises", "run() raised a callback exception that does not belong to this call", self.witness(cc))
+                self.dead = True
+        except WouldHang as wh:
+            ctx.violation("run-hangs", "run() would block forever on %s (first taken at %s)" % (wh.lock_name, wh.first_stack), self.witness(cc))
+            self.dead = True
+        except BaseException as exn:
+            ctx.violation("run-raises" + (":verbose" if self.variant == "verbose" else ""), "run() raised %r" % (exn,), self.witness(cc))
+            self.dead = True
+        finally:
+            self.stack.pop()
+            del self.calls[cc["cid"]]
+        if r is None:
+            self.outcomes.append((self.si, cc["depth"], li, "raised"))
+            return
+        eo, ao = self.observed(cc)
+        logic = ls.logic
+        if eo is not None or ao is not None:
+            # the agents were consulted for THIS call: their verdicts decide, whatever the reply says about being cached
+            where = "agents consulted in this call" + ("; reply marked cached" if r.cached else "") + ("; delivered to a raising callback" if how != "ok" else "")
+            o = ls.originals.get(prompt) if cc["cb_result"] is None else None
+            if "raise" in (eo, ao):
+                ctx.count("agent_exceptions")
+                ctx.count("session_agent_exceptions")
+                if o is not None:
+                    ctx.count("agent_exception_on_reevaluation_of_known_prompt")
+                    if self.clock.time() - o[3] >= ls.ttl:
+                        ctx.count("agent_exception_on_reevaluation_after_expiry")
+            elif o is not None and self.clock.time() - o[3] >= ls.ttl:
+                ctx.count("ttl_expiries")
+            judge(ctx, logic, eo, ao, prompt, r, asr.name, where, self.witness(cc))
+            self.update_model(cc, r)
+        elif r.cached:
+            ctx.count("cache_hits_checked")
+            ctx.count("session_cache_hits")
+            o = ls.originals.get(prompt)
+            if o is None:
+                ctx.violation("cached-reply-without-original", "reply marked cached but this loop never evaluated this exact prompt in the cache's lifetime",
+                              self.witness(cc))
+            else:
+                if verdict_tuple(r) != o[0]:
+                    ctx.violation("cached-reply-differs", "cached reply %r differs from the original %r" % (verdict_tuple(r), o[0]), self.witness(cc))
+                if self.clock.time() - o[3] >= ls.ttl:
+                    ctx.count("cache_hit_after_ttl(recorded)")
+                judge(ctx, logic, o[1], o[2], prompt, r, o[4], "cached", self.witness(cc))
+        else:
+            ctx.count("replies_without_consultation")
+            judge(ctx, logic, None, None, prompt, r, asr.name, "no agent was consulted and the reply is not from the cache", self.witness(cc))
+        tok = r.approval_token
+        self.outcomes.append((self.si, cc["depth"], li, how, verdict_tuple(r), None if tok is None else (tok.request_hash, tok.issuer)))
+        m = opt["mutate"]
+        if m:
+            # the caller's verdict objects change after the call: earlier replies / cached replies must not follow them
+            for stub in ([ex] if m == "exec" else [asr] if m == "assess" else [ex, asr]):
+                p = stub.last
+                if p is not None:
+                    for tbl in (stub.share, self.session_share):
+                        if tbl is not None:
+                            for k in [k for k, v in tbl.items() if v is p]:
+                                del tbl[k]
+                    p.action_type = "BLOCK" if p.action_type in ("EXECUTE", "PERMIT") else "PERMIT"
+                    p.payload, p.confidence = "mutated after the call", 0.0
+                    p.metadata.clear()
+                    ctx.count("verdict_objects_mutated_after_call")
+
+    def read_apis(self):
+        ls = self.vrng.choice(self.loops)
+        k = self.vrng.randrange(5)
+        self.ctx.count("reads_interleaved")
+        try:
+            if k == 0:
+                ls.loop.get_statistics()
+            elif k == 1:
+                ls.loop.get_circuit_breaker_stats()
+            elif k == 2:
+                ls.loop.get_results_log(self.vrng.choice([0, 1, 100, 10 ** 6]))
+            elif k == 3:
+                repr(ls.loop)
+                str(ls.loop.get_results_log())
+            else:
+                ls.loop.get_statistics()
+                ls.loop.get_circuit_breaker_stats()
+                ls.loop.get_results_log()
+        except BaseException as exn:
+            self.ctx.violation("read-api-raises", "a reporting API raised %r" % (exn,), self.witness())
+            self.dead = True
+
+    def step(self, si, st):
+        self.si = si
+        kind = st[0]
+        if kind == "run":
+            self.do_run(st[1], self.script["pool"][st[2]], st[3], st[4], st[5])
+        elif kind == "advance":
+            self.clock.advance(st[1])
+            if st[1] > 86400:
+                self.ctx.count("clock_jumps_over_24h")
+            elif st[1] < 1:
+                self.ctx.count("clock_steps_sub_second")
+        elif kind == "clear_cache":
+            self.loops[st[1]].loop.clear_cache()
+            self.loops[st[1]].originals.clear()
+            self.ctx.count("maintenance_calls")
+        elif kind == "reset_circuit_breaker":
+            self.loops[st[1]].loop.reset_circuit_breaker()
+            self.ctx.count("maintenance_calls")
+        elif kind == "swap_assessor":
+            ls = self.loops[st[1]]
+            ls.assessor = self.new_stub(st[2])
+            ls.loop.assessor = ls.assessor
+            self.ctx.count("assessor_replaced")
+        elif kind == "set_cb":
+            self.loops[st[1]].cb[st[2]] = st[3]
+        if self.variant == "reads" and self.vrng.random() < 0.6:
+            for _ in range(self.vrng.randint(1, 3)):
+                self.read_apis()
+
+
+def play_script(ctx, script, variant, vrng, long=False):
+    import contextlib
+    import operon_ai.topology.loops as loops_mod
+    clock = VClock(base=1_700_000_000.0)
+    pl = Play(ctx, script, variant, vrng, clock, long)
+    with patched(clock, loops_mod), contextlib.redirect_stdout(_Sink()):
+        try:
+            pl.build()
+        except BaseException as exn:
+            ctx.violation("constructor-raises", "CoherentFeedForwardLoop(...) raised %r" % (exn,), {"variant": variant, "loops": script["loops"]})
+            pl.dead = True
+            return pl
+        for si, st in enumerate(script["steps"]):
+            if pl.dead:
+                break
+            pl.step(si, st)
+    return pl
+
+
+def session_case(ctx, n):
+    rng = ctx.rng("session", n)
+    script = gen_session(rng)
+    plays = {}
+    for variant in ("base", "verbose", "reads"):
+        plays[variant] = play_script(ctx, script, variant, ctx.rng("session-variant", variant, n))
+    ctx.count("sessions")
+    base = plays["base"]
+    if not any(p.dead for p in plays.values()):
+        for variant in ("verbose", "reads"):
+            other = plays[variant].outcomes
+            ctx.count("differential_sessions_compared")
+            if other != base.outcomes:
+                k = next((i for i, (x, y) in enumerate(zip(base.outcomes, other)) if x != y), min(len(other), len(base.outcomes)))
+                ctx.violation("verdict-differs:" + variant, "the same session gives a different reply %s: reply #%d is %r, without it %r"
+                              % ("in verbose mode" if variant == "verbose" else "when read-only APIs are interleaved", k,
+                                 other[k] if k < len(other) else None, base.outcomes[k] if k < len(base.outcomes) else None),
+                              dict(base.witness(), variant=variant))
+    hits = sum(1 for o in base.outcomes if len(o) > 4)
+    if hits:
+        ctx.nontrivial(("session", script["share"], tuple(l["kw"].get("gate_logic", "AND") for l in script["loops"]),
+                        tuple(s[0] if s[0] != "run" else (s[1], s[3], s[4]) for s in script["steps"])))
+    if n % 400 == 0:
+        ctx.sample({"session": {"loops": script["loops"], "share": script["share"], "steps": script["steps"][:6], "outcomes": base.outcomes[:6]}})
+
+
+def long_case(ctx, n):
+    """one very long history on two long-lived loops used alternately: > 20 000 requests, > 10 000 distinct prompts (the bounded cache evicts),
+    revisits of recent and old prompts, occasional maintenance calls, reads, clock steps and agent exceptions; trivial stubs keep it cheap."""
+    rng = ctx.rng("long", n)
+    loops = [gen_loop_cfg(rng, i) for i in range(2)]
+    for i, cfg in enumerate(loops):
+        cfg["kw"]["enable_cache"] = True
+        cfg["kw"]["enable_circuit_breaker"] = (i == 1 and rng.random() < 0.5)
+        cfg["kw"]["cache_ttl_seconds"] = rng.choice([300, 1e9, 86400.0, 60.0])
+        cfg["cb"] = {"on_block": rng.choice([None, "record"]), "on_permit": rng.choice([None, "record"])}
+        cfg["builtin_agents"], cfg["budget"] = False, "shared"
+    nops = 21000 if ctx.tier == "quick" else 26000
+    pool, steps = [], []
+    for k in range(nops):
+        r = rng.random()
+        if r < 0.002:
+            steps.append(("advance", rng.choice([0.001, 0.5, 59.0, 301.0, 86400.0 * 2])))
+            continue
+        if r < 0.003:
+            steps.append((rng.choice(["clear_cache", "reset_circuit_breaker"]), rng.randrange(2)))
+            continue
+        if not pool or rng.random() < 0.5:
+            pool.append("req-%d %s" % (len(pool), rng.choice(["deploy", "delete", "read", "é", ""])))
+            pi = len(pool) - 1
+        elif rng.random() < 0.6:
+            pi = rng.randrange(max(0, len(pool) - 40), len(pool))
+        else:
+            pi = rng.randrange(len(pool))
+        e, a = pick_verdicts(rng)
+        steps.append(("run", rng.randrange(2), pi, e, a, {"ei": k, "ai": k + 1, "conf": 0.7, "payload": "ok", "distinct": False, "mutate": None}))
+    script = {"share": rng.choice([None, "stub", "session"]), "pool": pool, "loops": loops, "steps": steps,
+              "nested": [(0, 0, "EXECUTE", "PERMIT")]}
+    pl = play_script(ctx, script, "reads" if rng.random() < 0.5 else "base", _ThinReads(ctx.rng("long-reads", n)), long=True)
+    ctx.count("long_sessions")
+    ctx.count("long_session_requests", sum(1 for o in pl.outcomes))
+    ctx.count("long_session_distinct_prompts", len(pool))
+    ctx.nontrivial(("long", n))
+
+
+class _ThinReads:
+    """rng facade for the long sessions: reads are interleaved after ~1% of the steps only"""
+
+    def __init__(self, rng):
+        self.rng = rng
+
+    def random(self):
+        return 0.0 if self.rng.random() < 0.01 else 1.0
+
+    def randint(self, a, b):
+        return 1
+
+    def choice(self, seq):
+        return self.rng.choice(seq)
+
+    def randrange(self, k):
+        return self.rng.randrange(k)
 
 
 if __name__ == "__main__":
